@@ -205,6 +205,21 @@ func checkC13(c *hx.Checker) {
 	ew, _ := ref.Unary("Relu", wInit)
 	jobs = append(jobs, job{newModelCase(mi, map[string]*ref.T{"a": good["a"]}, "outputs", map[string]*ref.T{"y_a": ea, "y_w": ew}, hx.Num, ""), "init-input/not-supplied", []string{"initializer-input"}, true})
 	jobs = append(jobs, job{newModelCase(mi, map[string]*ref.T{}, "error", nil, hx.Num, ""), "init-input/required-missing", []string{"initializer-input", "missing-input"}, true})
+	// an initializer-backed input is validated against its DECLARATION (here [N,3]; the default has 2 rows), not
+	// against the default's shape: other row counts are accepted, a wrong fixed dim or rank is refused
+	{
+		md := reluModel(map[string][]int64{"a": {2, 3}, "w": {-1, 3}}, map[string]*ref.T{"w": wInit})
+		for _, sh := range [][]int{{2, 3}, {4, 3}, {1, 3}, {7, 3}, {2, 2}, {4, 4}, {3}, {2, 3, 1}} {
+			wv := ref.Distinct(ref.F32, sh)
+			feed := map[string]*ref.T{"a": good["a"], "w": wv}
+			if accepts([]int64{-1, 3}, sh) {
+				e, _ := ref.Unary("Relu", wv)
+				jobs = append(jobs, job{newModelCase(md, feed, "outputs", map[string]*ref.T{"y_a": ea, "y_w": e}, hx.Num, ""), fmt.Sprintf("init-input/dynamic-declared/supplied%v", sh), []string{"initializer-input", "supplied"}, true})
+			} else {
+				jobs = append(jobs, job{newModelCase(md, feed, "error", nil, hx.Num, ""), fmt.Sprintf("init-input/dynamic-declared/supplied%v", sh), []string{"initializer-input", "supplied"}, true})
+			}
+		}
+	}
 	// unused initializer that is also declared as input must still not be required
 	mu := reluModel(map[string][]int64{"a": {2, 3}}, map[string]*ref.T{"unused": wInit})
 	jobs = append(jobs, job{newModelCase(mu, map[string]*ref.T{"a": good["a"]}, "outputs", map[string]*ref.T{"y_a": ea}, hx.Num, ""), "init-unused", []string{"initializer-input"}, true})
@@ -326,6 +341,43 @@ func checkC13(c *hx.Checker) {
 					shouldReject := !shp[ax].IsDynamic && int64(e) != shp[ax].Size
 					if enforced != shouldReject {
 						return mk("introspection-mismatch", fmt.Sprintf("axis %d reported %+v but Run(extent %d) error=%v", ax, shp[ax], e, rerr))
+					}
+				}
+			}
+			// what the accessors return is the caller's to modify: scribbling on it must not rewrite the signature
+			scr := m.InputShapes()
+			for ax := range scr["x"] {
+				scr["x"][ax].IsDynamic = !scr["x"][ax].IsDynamic
+				scr["x"][ax].Size += 5
+				scr["x"][ax].Name = "scribbled"
+			}
+			scr["y"] = scr["x"]
+			delete(scr, "x")
+			names := m.InputNames()
+			for i := range names {
+				names[i] = "scribbled"
+			}
+			again, ok2 := m.InputShapes()["x"]
+			if !ok2 || len(again) != len(sig) || len(m.InputNames()) != 1 || m.InputNames()[0] != "x" {
+				return mk("wrong-introspection", fmt.Sprintf("after the caller modified the returned shapes / names: InputShapes[x] = %v, InputNames = %v", again, m.InputNames()))
+			}
+			for ax, d := range sig {
+				fixed := d > 0
+				if again[ax].IsDynamic == fixed || (fixed && again[ax].Size != d) {
+					return mk("wrong-introspection", fmt.Sprintf("after the caller modified the returned shapes: axis %d reported %+v, declared %d", ax, again[ax], d))
+				}
+				for _, e := range []int{2, 3} {
+					sh := make([]int, len(sig))
+					for k, dk := range sig {
+						sh[k] = 2
+						if dk > 0 {
+							sh[k] = int(dk)
+						}
+					}
+					sh[ax] = e
+					_, rerr := m.Run(gonnx.Tensors{"x": hx.ToG(ref.Distinct(ref.F32, sh))})
+					if (rerr != nil) != (fixed && int64(e) != d) {
+						return mk("introspection-mismatch", fmt.Sprintf("after the caller modified the returned shapes: axis %d declared %d but Run(extent %d) error=%v", ax, d, e, rerr))
 					}
 				}
 			}
